@@ -23,14 +23,16 @@ package interp
 
 //@ pred arith(a): a == aAdd || a == aAnd || a == aAndNot || a == aMul || a == aOr || a == aQuo || a == aRem || a == aShl || a == aShr || a == aSub || a == aXor
 //@ lit Interpreter.cfg case:binaryExpr#4 () ()
-//@   props C02 C12
+//@   props C02 C12 C03
 //@   opt safety = off
 //@   opt opaque-calls = *
 //@   opt opaque-havoc = none
-//@   opt record-calls = binaryExpr
+//@   opt record-calls = binaryExpr, compareConst
+//@   opt ignore-contracts = compareConst
 //@   requires [assume] n != nil && n.anc != nil && len(n.child) == 2 && n.child[0] != nil && n.child[1] != nil && len(n.anc.child) >= 2 && n.anc.child[0] != nil && n.anc.child[0] != n && n.anc.child[0] != n.child[0] && n.anc.child[0] != n.child[1] && n.anc != n && n.child[0] != n && n.child[1] != n
 //@   requires [assume] the-case-guard: n.kind == binaryExpr
 //@   requires [assume] interface-context-is-not-propagated-in-pre-order: n.typ == nil
+//@   ensures [C03] constant-operands-reach-the-comparison-folder: err == nil && n.child[0].rval.IsValid() && n.child[1].rval.IsValid() ==> called(compareConst) && lastArg(compareConst, 0) == n
 //@   ensures [C12] operands-checked-by-the-binary-rule: called(binaryExpr) && lastArg(binaryExpr, 0) == n && (lastRes(binaryExpr, 0) != nil ==> err != nil && n.gen == old(n.gen) && n.findex == old(n.findex))
 //@   ensures operator-into-empty-interface-has-concrete-type: err == nil && arith(n.action) && !n.rval.IsValid() && n.anc.kind == assignStmt && n.anc.action == aAssign && n.anc.nleft == 1 && childPos(n) - n.anc.nright == 0 && old(isEmptyInterface(n.anc.child[0].typ)) ==> n.typ != nil && n.typ.val != nil
 
